@@ -52,6 +52,7 @@ def step (locked : α → Bool) (u : LCS α) : Op α β → LCS α × Out α
   | .commit => (u.commit, .unit)
   | .read _ => (u, .value (readValue u))  -- always the current set
   | .refusedWrapped => (u, .bool false)
+  | .readFail _ => (u, .raised)           -- the raw attribute has no value: neither has the view; nothing changes
 
 def run (locked : α → Bool) : LCS α → List (Op α β) → LCS α × List (Out α)
   | u, [] => (u, [])
